@@ -184,12 +184,23 @@ def selfref_switches(ctx, f):
             if isinstance(pl, int) and pl not in aliases and rv[0] == "use" and op_local(rv[1]) in aliases and not place_projs(op_place(rv[1])):
                 aliases.add(pl)
                 changed = True
+    # `opt.filter(|d| d.name == usage.name)` keeps the definition only when the names agree: the Some arm of a match on it
+    # is the true side of the test
+    discr = set()
+    for bb, si, pl, rv, sp in f.assigns():
+        if rv[0] == "discr" and isinstance(pl, int) and place_local(rv[1]) in aliases:
+            discr.add(pl)
     for bb, b in enumerate(f.blocks):
         t = b["t"]
         if t[0] == "switch" and op_local(t[1]) in aliases:
             false_t = [tg for v, tg in t[2] if v == 0]
             if false_t:
                 out.append((bb, t[3], false_t[0]))
+        elif t[0] == "switch" and op_local(t[1]) in discr:
+            false_t = [tg for v, tg in t[2] if v == 0]
+            true_t = [tg for v, tg in t[2] if v == 1] or ([t[3]] if t[3] is not None else [])
+            if false_t and true_t:
+                out.append((bb, true_t[0], false_t[0]))
     return out
 
 
